@@ -3,7 +3,7 @@
 # properties): prints the pairs that do not exit 0 or 2; exit 1 if any pair exits 1 (false alarm)
 cd "$(dirname "$0")/.."
 props=$(.venv/bin/python -c "import json;print(' '.join(c['property_id'] for c in json.load(open('MANIFEST.json'))['checks']))")
-for d in ${EQ_GLOB:-equivalent/*/}; do for p in $props; do echo "$d $p"; done; done | xargs -P 10 -L 1 sh -c 'd=$0; p=$1; id=$(basename $d); r=$(tools/mutant.sh $d/patch.diff $p 2>&1 | grep -o "mutant-exit=[0-9]*"); echo "$id $p $r"' > /tmp/eqmatrix.$$ 2>&1
+for d in ${EQ_GLOB:-equivalent/*/}; do for p in $props; do echo "$d $p"; done; done | xargs -P 10 -L 1 sh -c 'd=$0; p=$1; id=$(basename $d); o=$(tools/mutant.sh $d/patch.diff $p 2>&1); r=$(echo "$o" | grep -o "mutant-exit=[0-9]*"); echo "$id $p $r"; case "$r" in *=1|*=3) echo "$o" | grep -E "^(VIOLATION|CHECKER)" | head -3 | sed "s/^/   $id $p: /";; esac' > /tmp/eqmatrix.$$ 2>&1
 grep -v "exit=0" /tmp/eqmatrix.$$ | sort
 n1=$(grep -c "exit=1" /tmp/eqmatrix.$$); n2=$(grep -c "exit=2" /tmp/eqmatrix.$$); n0=$(grep -c "exit=0" /tmp/eqmatrix.$$)
 echo "pairs: verified=$n0 undecided=$n2 false-alarms=$n1"
